@@ -229,6 +229,16 @@ def wiring_setup():
                 ("b", bytes, dataclasses.field(default=b"xy"))],
         bases=(DataClassORJSONMixin, DataClassMessagePackMixin, DataClassYAMLMixin, DataClassTOMLMixin),
         namespace={"Config": type("Config", (BaseConfig,), {"orjson_options": 16})})
+    from mashumaro.config import ADD_DIALECT_SUPPORT
+    from mashumaro.dialect import Dialect
+
+    global WDialect, AllD
+    WDialect = type("WDialect", (Dialect,), {"omit_none": True, "__module__": __name__})
+    AllD = dataclasses.make_dataclass(
+        "AllD", [("a", int), ("n", typing.Optional[int], dataclasses.field(default=None))], bases=(DataClassORJSONMixin,),
+        namespace={"Config": type("Config", (BaseConfig,), {"orjson_options": 16, "code_generation_options": [ADD_DIALECT_SUPPORT]}),
+                   "__module__": __name__})
+    AllD(a=1).to_jsonb(dialect=WDialect)  # compiled here, untraced
     return All
 
 
@@ -262,6 +272,19 @@ def wiring_main(S, env):
         return fail("C04/wiring:orjson_options-not-forwarded", calls=spy.calls, want=want_opt)
     if out != {"a": a, "d": datetime.date(2020, 1, 2), "b": "eHk=\n"}:
         return fail("C04/wiring:to_jsonb-wrong-dialect", got=out)
+    # the same options must reach the encoder when a dialect is passed with the call
+    spy2 = Spy()
+    y = AllD(a=a)
+    if env[S.node.given]:
+        st, out = call(lambda: y.to_jsonb(encoder=spy2, orjson_options=env[S.node.opt], dialect=WDialect))
+    else:
+        st, out = call(lambda: y.to_jsonb(encoder=spy2, dialect=WDialect))
+    if st == "exc":
+        return fail("C04/wiring:to_jsonb-with-dialect-raised", exc=out)
+    if len(spy2.calls) != 1 or spy2.calls[0][1].get("option") != want_opt:
+        return fail("C04/wiring:orjson_options-not-forwarded-with-dialect", calls=spy2.calls, want=want_opt)
+    if out != {"a": a}:
+        return fail("C04/wiring:to_jsonb-dialect-not-applied", got=out)
     st, out = call(lambda: x.to_msgpack(encoder=ident))
     if st == "exc" or out != {"a": a, "d": "2020-01-02", "b": b"xy"}:
         return fail("C04/wiring:to_msgpack-wrong-dialect", got=out)
